@@ -998,6 +998,27 @@ def _c20_per_sig(ps, ctr):
                     rgot = None if sig.return_annotation is sig.empty else sig.return_annotation
                     if rgot != (99 if ret else None):
                         fails.append('s-return: s(%r, %r, annotate=%s future=%s) has return annotation %r' % (text, ret, ua, future, rgot))
+    # eager or postponed: with any set of future features, in any order, the raw signature is the one CPython gives the same def
+    # compiled after the same `from __future__ import ...` line
+    import inspect as _inspect
+    for future in ((), ('annotations',), ('generator_stop',), ('annotations', 'generator_stop'), ('generator_stop', 'annotations'),
+                   ('division', 'annotations', 'generator_stop')):
+        for ret in (None, '99'):
+            src_ = ('from __future__ import %s\n' % ', '.join(future) if future else '') + \
+                'def f(%s)%s:\n    pass\n' % (text, ' -> ' + ret if ret else '')
+            gl_ = {}
+            try:
+                exec(compile(src_, '<c20-future>', 'exec'), gl_)
+                with warnings.catch_warnings():
+                    warnings.simplefilter('ignore')
+                    got_ = str(support.s(text, ret, future_features=future) if ret else support.s(text, future_features=future))
+            except Exception as e:  # noqa
+                fails.append('s-future-raises: s(%r, %r, future_features=%r) raised %s: %s' % (text, ret, future, type(e).__name__, e))
+                continue
+            want_ = str(_inspect.signature(gl_['f']))
+            if got_ != want_:
+                fails.append('s-future-features: s(%r, %r, future_features=%r) = %s, the same def compiled after `from __future__ import %s` '
+                             'has %s' % (text, ret, future, got_, ', '.join(future), want_))
     # func_from_sig reproduces the signature
     try:
         with warnings.catch_warnings():
